@@ -79,6 +79,11 @@ def job(item):
                 ig = ["No::Such"]
             o = {"ignore": ig, "ser": rng.random() < 0.6}
             res.append(("%s/%d" % (cid, k), origin, text, o, mexcheck.observe(text, ignore=o["ignore"], ser=o["ser"])))
+        if origin.startswith("scenario(special"):
+            # the directed family: every class is ignored once (a base while its derived class stays, and vice versa)
+            for k2, nm in enumerate(names):
+                o = {"ignore": [nm], "ser": False}
+                res.append(("%s/i%d" % (cid, k2), origin, text, o, mexcheck.observe(text, ignore=o["ignore"], ser=False)))
     for r in res:
         r[4].pop("raw", None)
     return res
@@ -110,7 +115,8 @@ def main(pid):
             ("exh", dict(universe="types", typedepth=1, target=2, members=1, sample=4000 if thorough else 250)),
             ("exh", dict(universe="inst", target=40, maxitems=2, sample=None if thorough else 150))]
     allcases = []
-    plan += [("scenario", dict(family="members")), ("scenario", dict(family="serializable")), ("scenario", dict(family="enums"))]
+    plan += [("scenario", dict(family="members")), ("scenario", dict(family="serializable")), ("scenario", dict(family="enums")),
+             ("scenario", dict(family="special"))]
     for kind, kw in plan:
         if kind == "sim":
             cs, r = cases.simulate(seed=rep.seed, **kw)
